@@ -141,6 +141,12 @@ DoStrategy == /\ Up /\ s.cm \in {"Consider", "Choose", "Decide"}
 DoProposal == /\ Up /\ ~s.replaying /\ s.propCh /\ s.actions
               /\ \E c \in Crashes : Finish(RecordProposal(Ctx0(s, st), "P"), "Proposal", "P", c)
 
+\* the strategy answers a second time on the (1-buffered) proposal channel of a round in which the state machine has
+\* already recorded its proposal: the channel is no longer read, nothing happens
+DoProposalDup == /\ Up /\ ~s.replaying /\ ~s.propCh /\ s.actions
+                 /\ \E i \in 1..Len(signed) : signed[i].kind = "proposal" /\ signed[i].h = s.H /\ signed[i].r = s.R
+                 /\ Finish(Ctx0(s, st), "ProposalDup", "P2", FALSE)
+
 DoFinalized == /\ Up /\ env.finPending # NoFin /\ s.finCh
                /\ \E c \in Crashes :
                     Finish(IF s.replaying THEN CatchupFinalized(Ctx0(s, st), env.finPending) ELSE Finalized(Ctx0(s, st), env.finPending),
@@ -207,7 +213,7 @@ Next == /\ Len(hist) < MaxSteps
         /\ DesignOK          \* a state that violates a property predicate is terminal (its behaviour is a witness)
         /\ \/ (Len(hist) = 0 /\ DoBoot("Boot"))
            \/ (Len(hist) > 0 /\ AllowCrash /\ DoBoot("Restart"))
-           \/ DoView \/ DoJump \/ DoTimer \/ DoStrategy \/ DoProposal \/ DoFinalized \/ DoHeightCommitted \/ DoBlockData
+           \/ DoView \/ DoJump \/ DoTimer \/ DoStrategy \/ DoProposal \/ DoProposalDup \/ DoFinalized \/ DoHeightCommitted \/ DoBlockData
 
 
 \* witnesses of design-level violations, exported for replay on the real code
